@@ -17,7 +17,15 @@ import (
 
 type Rng struct{ s uint64 }
 
-func NewRng(seed uint64) *Rng { return &Rng{s: seed*0x9E3779B97F4A7C15 + 0x1234567} }
+// NewRng: the start state is a full mix of the seed (a state of seed*gamma+c would make the stream of seed+1 the stream of
+// seed shifted by one draw, i.e. consecutive VERIF_SEED values would explore nearly the same cases).
+func NewRng(seed uint64) *Rng {
+	z := seed ^ 0x6A09E667F3BCC909
+	z = (z ^ (z >> 30)) * 0xBF58476D1CE4E5B9
+	z = (z ^ (z >> 27)) * 0x94D049BB133111EB
+	z = (z ^ (z >> 31)) * 0xD6E8FEB86659FD93
+	return &Rng{s: z ^ (z >> 32)}
+}
 
 func (r *Rng) U64() uint64 {
 	r.s += 0x9E3779B97F4A7C15
